@@ -272,6 +272,18 @@ def binding_demo(ctx, run, ev):
 def run_prop(ctx):
     run = Runner(ctx)
     if getattr(ctx, "replay", None):
+        # a replay must not overwrite the evidence of the last full run
+        evf = os.path.join(C.EVIDENCE, ctx.pid + ".json")
+        keep = open(evf).read() if os.path.exists(evf) else None
+        orig_finish = ctx.finish
+
+        def finish_keep():
+            rc = orig_finish()
+            if keep is not None:
+                with open(evf, "w") as f:
+                    f.write(keep)
+            return rc
+        ctx.finish = finish_keep
         with open(ctx.replay) as f:
             d = json.load(f)
         scn = d.get("scenario", d)
